@@ -1087,12 +1087,19 @@ func (g *gen) genF64raw(cur float64) float64 {
 	case x == 12:
 		g.stat("float-same-bits")
 		return cur
-	case x == 13:
+	case x == 13 || x == 14:
 		// the previous value with a WINDOW of bits flipped: the XOR with the previous value has
 		// exactly `lead` leading and `trail` trailing zeros, every pair (lead, trail) equally
 		// likely - the Gorilla-style codec encodes exactly these two numbers
 		lead := r.Intn(64)
+		if r.Chance(1, 2) {
+			// the codec stores the leading count in 5 bits and clamps it: its boundaries
+			lead = []int{0, 1, 15, 16, 30, 31, 32, 33, 34, 47, 48, 62, 63}[r.Intn(13)]
+		}
 		trail := r.Intn(64 - lead)
+		if r.Chance(1, 4) {
+			trail = 0
+		}
 		width := 64 - lead - trail
 		var mask uint64 = 1 << uint(trail)
 		if width > 1 {
